@@ -81,7 +81,7 @@ func checkDeltaConstruction(p *core.Prog, r *core.Report, rule string) {
 		})
 		edgeOf := func(found ssa.Value, polarity bool) []core.Edge {
 			var es []core.Edge
-			core.Instrs(fn, func(in ssa.Instruction) {
+			core.InstrsDeep(fn, func(in ssa.Instruction) {
 				ifi, ok := in.(*ssa.If)
 				if !ok {
 					return
@@ -368,6 +368,33 @@ func valueOrNil(v ssa.Value) ssa.Value { return v }
 // copiedFrom: dst is a fresh slice (make) and a builtin copy(dst', src) with
 // dst' a (slice of) dst and src deriving from the parameter exists and dominates nothing else (presence only).
 func copiedFrom(fn *ssa.Function, dst ssa.Value, src *ssa.Parameter) bool {
+	// a cloning helper of the package handed the parameter: it returns a slice it makes and fills from its own parameter
+	if hc, ok := dst.(*ssa.Call); ok {
+		h := core.StaticFn(hc.Common())
+		if h == nil || h.Blocks == nil || h.Pkg != fn.Pkg || h == fn {
+			return false
+		}
+		for i, a := range hc.Call.Args {
+			if a != ssa.Value(src) || i >= len(h.Params) {
+				continue
+			}
+			all, n := true, 0
+			core.Instrs(h, func(in ssa.Instruction) {
+				if rt, ok := in.(*ssa.Return); ok && len(rt.Results) == 1 {
+					n++
+					rv := core.ReturnValues(rt)[0]
+					if k, isK := rv.(*ssa.Const); isK && k.IsNil() {
+						return // nil in, nil out
+					}
+					if !copiedFrom(h, rv, h.Params[i]) {
+						all = false
+					}
+				}
+			})
+			return all && n > 0
+		}
+		return false
+	}
 	if _, ok := dst.(*ssa.MakeSlice); !ok {
 		return false
 	}
